@@ -15,6 +15,7 @@ mod corr_filters;
 mod corr_geom;
 mod corr_eval;
 mod corr_decision;
+mod corr_reduce;
 mod e2e;
 mod pngparse;
 
@@ -103,6 +104,7 @@ fn main() {
         "oracle-determinism" => corr_eval::oracle(&mut ctx),
         "outputs" => corr_eval::outputs(&mut ctx),
         "corr-decision" => corr_decision::corr(&mut ctx),
+        "corr-reduce" => corr_reduce::corr(&mut ctx),
         "oracle-files" => corr_decision::oracle_files(&mut ctx),
         _ => {
             eprintln!("unknown stream {cmd}");
